@@ -39,7 +39,7 @@ def _tel(pkg):
 class P(vlib.Prop):
     pid = "C19"
     coq_dirs = ["Common", "C19"]   # + Generated/C19*.v (written by P.translate, scanned below)
-    coq_targets = ["C19/Properties.vo", "C19/Witness.vo", "C19/Harness.vo", "C19/Checker.vo"]
+    coq_targets = ["C19/Properties.vo", "C19/Witness.vo", "C19/Harness.vo", "C19/Checker.vo", "C19/Repaired.vo"]
     properties_module = "C19.Properties"
     properties_file = "C19/Properties.v"
     instance_obligations = []   # the four translator obligations (…_is_translated, validated_batch_is_valid_batch) are theorems of Properties.v
@@ -141,7 +141,7 @@ class P(vlib.Prop):
                     code = vlib.coq_eval_term(ctx, "C19.Checker", "prop_code (%s)" % t) if len(t) < 20000 else "?"
                     m = __import__("re").search(r"=\s*\(?(-?\d+)", code)
                     cid = m.group(1) if m else "?"
-                    kind = "clause-violated-%s-%s" % (t.split()[0], cid)
+                    kind = "clause-violated-%s-%s" % (t.split()[0].strip("("), cid)
                     if kind in reported or t in already:
                         continue
                     reported.add(kind)
